@@ -20,7 +20,9 @@
  *     or fails; it never returns 0 for count > 0 (outside the model: the real
  *     loop would spin);
  *   - file CONTENTS are not modelled.  The bytes the caller appends are
- *     identified by their offset in the static object vp_stream[]; memcpy into
+ *     identified by their offset in the appended stream (the slice of the
+ *     append in progress lives in the static object vp_stream[], its first
+ *     byte is stream byte vp_cur_start); memcpy into
  *     the 64 KiB buffer of the writable file records which stream range the
  *     buffer holds (one contiguous run [0,run_len) <-> [run_base,run_base+run_len));
  *     write(2) translates its source pointer back to a stream offset and
@@ -149,7 +151,8 @@ static int vp_close_error_ignored; /* harness: the unit ignores close(2) errors 
 static int vp_quiet;            /* harness: every call succeeds (set-up phases checked elsewhere) */
 
 /* writable-file monitor */
-static unsigned char vp_stream[VP_TOTAL];     /* identity of the appended bytes */
+static unsigned char vp_stream[VP_TOTAL];     /* the caller's data of the append in progress: byte i of it is
+                                                 stream byte vp_cur_start + i (identity of the appended bytes) */
 static const unsigned char *vp_wbuf;          /* the 64 KiB buffer of the file under test */
 static int vp_data_fd = -1;
 static size_t vp_cur_start, vp_cur_end;       /* stream slice of the append in progress */
@@ -345,7 +348,7 @@ vp_memcpy(void *dst, const void *src, size_t n) {
     VP_ASSERT(VP_IN(dst, vp_wbuf, VP_WBUF) && d + n <= VP_WBUF && d + n >= d,
               "memcpy stays inside the 64 KiB write buffer");
     if (VP_IN(src, vp_stream, VP_TOTAL)) {
-      size_t s = (size_t)((const unsigned char *)src - vp_stream);
+      size_t s = (size_t)((const unsigned char *)src - vp_stream) + vp_cur_start;
       VP_ASSERT(s >= vp_cur_start && s + n <= vp_cur_end && s + n >= s,
                 "memcpy reads only the slice the caller passed to append");
       if (n > 0) {
@@ -402,7 +405,7 @@ vp_write(int fd, const void *buf, size_t count) {
     VP_ASSERT(o + count <= vp_run_len, "write(2) sends only bytes that append copied into the buffer");
     soff = vp_run_base + o;
   } else if (VP_IN(buf, vp_stream, VP_TOTAL)) {
-    soff = (size_t)((const unsigned char *)buf - vp_stream);
+    soff = (size_t)((const unsigned char *)buf - vp_stream) + vp_cur_start;
     VP_ASSERT(soff >= vp_cur_start && soff + count <= vp_cur_end,
               "unbuffered write(2) sends only bytes of the slice being appended");
     vp_direct_writes++;
